@@ -188,6 +188,16 @@ class SliceModel:
                     return False, 'overflow flag'
                 return self._add_b(body, rv, depth)
             if op in ('SubWithOverflow', 'Sub'):
+                if op == 'SubWithOverflow' and o.proj != (('f', 0),):
+                    return False, 'overflow flag'
+                # input.len() - <remaining suffix of the input's own CharIndices>.len(): the current position
+                ao = single_origin(trace_operand(body, rv['a'], through_calls=set()))
+                bo = single_origin(trace_operand(body, rv['b'], through_calls=set()))
+                if (ao is not None and ao.kind == 'callres' and ao.data.callee == 'core::str::<impl str>::len' and self._is_self_field(body, ao.data.args[0], self.input_idx)
+                        and bo is not None and bo.kind == 'callres' and bo.data.callee == 'core::str::<impl str>::len'):
+                    so = single_origin(trace_operand(body, bo.data.args[0], through_calls=set()))
+                    if so is not None and so.kind == 'callres' and (so.data.callee or '').endswith('CharIndices::<\'a>::as_str') and self._is_self_field(body, so.data.args[0], self.chars_idx):
+                        return True, 'input.len() - chars.as_str().len(): the scanner position'
                 return False, 'subtraction from an index (%s)' % op
             return False, 'arithmetic %s' % op
         return False, '%s' % o.kind
